@@ -348,6 +348,13 @@ pub fn generate(rng: &mut Rng, max_cmds: usize) -> Mega {
     if rng.chance(1, 4) {
         case.write_limit = *rng.pick(&[1usize, 7, 64, 1000]);
     }
+    // a fifth of the lock-step and pipelined conversations share the process with another connection
+    // that another thread serves in the middle of this one (at one of its reads, which in these
+    // arrival modes lie between the commands)
+    if matches!(case.arrival, Arrival::Pipelined(_)) && rng.chance(4, 5) {
+        let reads = 2 + rng.below(case.cmds.len() as u64 + 1);
+        case.interloper_at = Some((reads, rng.next()));
+    }
     // the documented entry points are interchangeable
     case.via_run_on_stream = rng.chance(1, 5);
     let offer_tls = rng.chance(1, 3);
